@@ -295,6 +295,53 @@ class H6(Case):
         return obs
 
 
+class H7(Case):
+    """results depend on the CURRENT tensors of a process tensor: a step that was read and then
+    overwritten (set_mpo_tensor / set_cap_tensor again) contracts with the new tensors"""
+    functions = ("SimpleProcessTensor.set_mpo_tensor", "SimpleProcessTensor.get_mpo_tensor", "SimpleProcessTensor.set_cap_tensor",
+                 "system_dynamics.compute_dynamics")
+    env = {"noconj": True}
+
+    def __init__(self, rank):
+        self.rank = rank
+        self.id = "H7/overwrite_after_read_r%d" % rank
+        self.bounds = {"d": 2, "N": 2, "bond": 2, "rank": rank}
+        self.timeout_s = 300
+
+    def run(self, inp):
+        d, N = 2, 2
+        pt, Meff, caps = build_pt(inp, "e", d, N, 2, self.rank, False)
+        P1 = [lib.gen_prop(inp, "p%d" % k, d) for k in range(N)]
+        P2 = [lib.gen_prop(inp, "q%d" % k, d) for k in range(N)]
+        rho0 = inp.arr("r", (d, d))
+        # first use (reads every step), then overwrite both steps and the caps with fresh tensors
+        first = lib.dynamics_states(sd.compute_dynamics(lib.FakeSystem(d, P1, P2), initial_state=rho0, process_tensor=pt,
+                                                        progress_type="silent"))
+        _, Meff2, caps2 = build_pt(inp, "f", d, N, 2, self.rank, False)
+        D = d * d
+        for k in range(N):
+            M = Meff2[k]
+            if self.rank == 3:
+                M3 = np.empty(M.shape[:3], dtype=M.dtype)
+                for a in range(M.shape[0]):
+                    for b in range(M.shape[1]):
+                        for i in range(D):
+                            M3[a, b, i] = M[a, b, i, i]
+                M = M3
+            pt.set_mpo_tensor(k, M)
+        for k in range(N + 1):
+            pt.set_cap_tensor(k, caps2[k])
+        second = lib.dynamics_states(sd.compute_dynamics(lib.FakeSystem(d, P1, P2), initial_state=rho0, process_tensor=pt,
+                                                         progress_type="silent"))
+        obs = []
+        for n in range(N + 1):
+            obs.append(Ob.eq("first use step %d" % n, first[n],
+                             lib.oracle_pt_dynamics(rho0, [(Meff, caps)], P1, P2, n).reshape(d, d)))
+            obs.append(Ob.eq("after overwrite step %d" % n, second[n],
+                             lib.oracle_pt_dynamics(rho0, [(Meff2, caps2)], P1, P2, n).reshape(d, d)))
+        return obs
+
+
 class H4(Case):
     """vec(A rho B) = (A (x) B^T) vec(rho) conventions"""
     functions = ("operators.commutator", "operators.acommutator", "operators.left_super", "operators.right_super",
@@ -330,7 +377,7 @@ def cases(tier):
            H1(3, 2, 1, 4, False, "none"), H1(1, 3, 2, 4, False, "none", num_steps=2),
            H1(2, 2, 2, 4, False, "stack"), H1(1, 3, 2, 3, True, "ends", num_steps=1),
            H1(1, 2, 2, 4, "out", "none"), H1(1, 2, 2, 3, "in", "none"), H1(2, 2, 1, 4, "out", "prepost")]
-    cs += [H2(2, 2, 2), H4(2), H4(3), H5(3), H5(4), H6(4, False), H6(4, "in"), H6(4, "out"), H6(4, True), H6(3, False, N=3)]
+    cs += [H2(2, 2, 2), H4(2), H4(3), H5(3), H5(4), H6(4, False), H6(4, "in"), H6(4, "out"), H6(4, True), H6(3, False, N=3), H7(3), H7(4)]
     cs += [H3(2, None), H3(3, 1)]
     if tier == "thorough":
         # (two rank-4 environments with bond 2 at N=3 do not finish within the per-case wall-clock limit:
